@@ -8,6 +8,25 @@ ALL = ["C%02d" % i for i in range(1, 21)]
 
 # id -> (technique, level text, level note, design ref)
 CHECKS = {
+    "C01": (
+        "reference-model monitor: brute-force (Ped)MEC (all 2^R read bipartitions x Viterbi over transmissions) run "
+        "next to the real PedigreeDPTable on generated and bounded-exhaustive instances; witness re-costing; tie-contract "
+        "check; ASan/UBSan lane",
+        "Tens of thousands of generated instances (and every instance of a small bounded domain in the thorough tier) "
+        "are solved by the real C++ solver and by an independent enumeration; cost, witness, tie flags and feasibility must "
+        "agree. Held on the instances executed.",
+        "Trusted: the O-mec model (self-tested against a second, dumber enumeration in setup_cmd); instances limited to "
+        "R<=12/16 reads; integer weights far below 2^32.",
+        "DESIGN.md §3 C01",
+    ),
+    "C19": (
+        "reference-model monitors (combinatorial number system; Wagner-Fischer) over exhaustively enumerated small "
+        "domains and random inputs up to the implementation limits; ASan/UBSan lane",
+        "All genotypes up to ploidy 6 x 6 alleles and all string pairs over small alphabets up to a bounded length (every "
+        "band width) are executed on the real code and compared with the definitions.",
+        "Trusted: math.comb based index formula and a textbook Levenshtein DP (self-tested against the recursive definition).",
+        "DESIGN.md §3 C19",
+    ),
     "C18": (
         "reference-model monitors (dict heap model, BFS components) + icontract forest invariant over "
         "bounded-exhaustive and random operation histories; ASan/UBSan lane",
